@@ -288,7 +288,10 @@ Inductive obs :=
 | RSnap (live : list (Z * (Z * list Z * Z)))    (* live entries: id, (err, args, addr) of e.Context() *)
         (counters : list (Z * (Z * Z * Z) * (Z * Z * Z)))
                                                 (* key, (pass, block, complete), (error, rt, gauge) *)
-        (returned : list berr).                 (* fields of every block error returned so far *)
+        (returned : list berr)                  (* fields of every block error returned so far *)
+| REscaped.                                     (* a panic reached the caller of Entry / Exit / Trace*:
+                                                   what the harness reports in that case; `step`
+                                                   never produces it (fail-open, C16) *)
 
 Definition get_ent (s : state) (e : Z) : option ent :=
   if e <? 0 then None else nth_error (ents s) (Z.to_nat e).
